@@ -178,6 +178,33 @@ def pitch_instances(r):
                            {"base_frequency": base})
     out[-1]["calls"][1] = ("T", "melody.evaluate", (t, rf * fac, t.copy(), ef * fac),
                            {"base_frequency": base})
+    # different time bases: the estimate is resampled (cent scale) with the
+    # requested interpolation kind; un-voiced zeros must stay out of the curve
+    if nfr >= 5:
+        knd = r.choice(["linear", "nearest", "zero", "slinear", "quadratic", "cubic"])
+        m2 = r.randrange(5, 30)
+        t2 = r.choice([0.0, 1 / 128]) + np.arange(m2) * r.choice([1 / 64, 3 / 128, 1 / 32])
+        # generic (off-lattice) pitches here: after resampling a reference frame
+        # meets estimates derived from *other* frames, and on the 12.5-cent lattice
+        # such cross differences hit the 50-cent tolerance exactly
+        rf = np.array([0.0 if f == 0 else np.sign(f) * float(gen.midi_to_hz(r.uniform(45, 75)))
+                       for f in rf])
+        ef2 = []
+        for tt in t2:
+            i = int(np.argmin(np.abs(t - tt)))
+            base_f = abs(rf[i]) if rf[i] != 0 else float(gen.midi_to_hz(60.0))
+            # generic deviations as well: interpolating between lattice deviations
+            # at rational positions lands on the tolerance (2/3 of 75 cents = 50)
+            dv = r.choice([0.0, r.uniform(-0.9, 0.9), r.uniform(-0.9, 0.9),
+                           12.0 + r.uniform(-0.3, 0.3), -12.0, 7.0 + r.uniform(-0.2, 0.2)])
+            g = base_f * 2.0 ** (dv / 12.0)
+            u = r.random()
+            ef2.append(0.0 if u < 0.15 else (-g if u < 0.25 else g))
+        ef2 = np.array(ef2)
+        fac2 = r.choice([2.0, 0.5, 4.0, 2.0 ** (1 / 12), 2.0 ** (-7 / 12)])
+        out.append(pair("factor", "melody.evaluate", (t, rf, t2, ef2),
+                        (t, rf * fac2, t2, ef2 * fac2), {"kind": knd},
+                        "frequency factor %r, kind=%s" % (fac2, knd), ("mel-kind", t, rf, t2, ef2, fac2, knd)))
     octv = r.choice([2.0, 0.5, 4.0])
     out.append(pair("octave", "melody.evaluate", (t, rf, t.copy(), ef),
                     (t, rf, t.copy(), ef * octv), {}, "estimate x %r" % octv,
@@ -254,10 +281,50 @@ def key_instances(spec, r):
     return out
 
 
+OPTIONAL_TONICS = {"b#": "c", "cb": "b", "e#": "f", "fb": "e"}
+
+
+def optional_spellings(ctx, mods):
+    """Spellings the key table may or may not know (the module docstring mentions
+    'Fb minor'): a library that accepts one must score it like the pitch class it
+    names; one that rejects it with ValueError is not judged."""
+    ws = mods["key"].weighted_score
+    others = tasks.all_keys(("major", "minor"))
+    for odd, plain in OPTIONAL_TONICS.items():
+        for mode in ("major", "minor"):
+            for cap in (False, True):
+                k_odd = "%s %s" % (odd.capitalize() if cap else odd, mode)
+                k_plain = "%s %s" % (plain, mode)
+                for other in others + [k_odd]:
+                    for role in (0, 1):
+                        a = (k_odd, other) if role == 0 else (other, k_odd)
+                        b = (k_plain, other if other != k_odd else k_plain) if role == 0 \
+                            else (other if other != k_odd else k_plain, k_plain)
+                        try:
+                            got = ws(*a)
+                        except ValueError:
+                            ctx.count("optional_key_spelling.rejected(not judged)")
+                            continue
+                        want = ws(*b)
+                        ctx.ev()
+                        ctx.count("optional_key_spelling.accepted")
+                        if got != want:
+                            ctx.violation(
+                                "C09/key.weighted_score/optional-spelling/changed", "changed",
+                                "key.weighted_score",
+                                "weighted_score%r = %r but the same keys spelled %r score "
+                                "%r" % (a, got, b, want),
+                                {"kind": "call", "fn": "key.weighted_score", "args": a,
+                                 "kwargs": {}},
+                                witness={"odd": a, "plain": b, "got": got, "want": want})
+
+
 def run_shard(spec, ctx):
     mods = env.load_repo()
     r = ctx.rng(spec["kind"])
     rel = Relations(ctx, mods, "C09")
+    if spec["kind"] == "keys" and spec.get("part", 0) == 0:
+        optional_spellings(ctx, mods)
     if spec["kind"] == "pitch":
         for _ in range(spec["n"]):
             for inst in pitch_instances(r):
@@ -279,6 +346,9 @@ def run_shard(spec, ctx):
 
 def replay(case, ctx):
     mods = env.load_repo()
+    if case.get("kind") == "call":
+        optional_spellings(ctx, mods)
+        return
     rel = Relations(ctx, mods, "C09")
     rel.run(case["inst"])
     rel.check(CHECKERS)
